@@ -11,7 +11,7 @@ import RotondaModel.Model.UnitMetrics
 `a|<src>;<src>…`   `Collection`: sources in registration order, `<src>` = `<name idx>.<kind>.<state…>`
      kinds `m.<up>.<lost>.<errs>.<infl>.<perr>.<topic idx>=<n>&…` mqtt record, `f.<total>.<ingress>=<n>&…` filter record
      (fresh gate), `g.<updates>.<dropped>` gate; output `order=<name idx>,… txt=<chars>:<fnv1a hex> uniq=<0|1> conflict=<0|1>`
-Flags: `void= retry= cred=` (MqttConn variants), `promescape= promgroup=` `as-written|repaired`.
+Flags: `void= retry= cred=` (MqttConn variants), `promescape= promgroup= lostcount=` `as-written|repaired`.
 -/
 open Rotonda.UnitMetrics
 open Rotonda.ConnMetrics (Str Call renderV linesOfV helpNames typeNames)
@@ -52,6 +52,7 @@ structure Flags where
   v : Variants
   esc : Bool
   group : Bool
+  lostFix : Bool
 
 def b2s (b : Bool) : String := if b then "1" else "0"
 
@@ -67,17 +68,17 @@ def showMqtt (fl : Flags) (unit : Str) (lib : Nat) (r : MqttRec) : String :=
 
 /-- One step: the new entries of the event history are scanned with `scanObs` (the calls one event causes do not
     depend on the calls made before: `scanObs_out_split`), the calls applied to the record. -/
-def scanNew (tbl : List Rotonda.MqttConn.QMsg) : Scan × MqttRec → List Rotonda.MqttConn.Obs → Scan × MqttRec
+def scanNew (fix : Bool) (tbl : List Rotonda.MqttConn.QMsg) : Scan × MqttRec → List Rotonda.MqttConn.Obs → Scan × MqttRec
   | acc, [] => acc
   | (sc, r), o :: os =>
     let sc' := scanObs tbl { sc with out := [] } o
-    scanNew tbl ({ sc' with out := [] }, r.applyAll sc'.out) os
+    scanNew fix tbl ({ sc' with out := [] }, r.applyAllV fix sc'.out) os
 
 def runMqtt (fl : Flags) (unit : Str) : MSt → Scan × MqttRec → Option (Nat × MqttRec × String) → List Step → List String
   | _, _, _, [] => []
   | m, acc, prev, s :: ss =>
     let m' := m.step fl.v s
-    let acc' := scanNew m'.tbl acc (m'.st.log.drop m.st.log.length)
+    let acc' := scanNew fl.lostFix m'.tbl acc (m'.st.log.drop m.st.log.length)
     -- a step that changes nothing is shown as the step before (same record, same text)
     let shown := match prev with
       | some (l, r, t) => if l == acc'.1.lib && r == acc'.2 then t else showMqtt fl unit acc'.1.lib acc'.2
@@ -105,7 +106,7 @@ def parseCall (s : String) : Option MEv :=
 
 def runCalls (fl : Flags) (unit : Str) : MqttRec → List MEv → List String
   | _, [] => []
-  | r, e :: es => let r' := r.apply e; showMqtt fl unit 0 r' :: runCalls fl unit r' es
+  | r, e :: es => let r' := r.applyV fl.lostFix e; showMqtt fl unit 0 r' :: runCalls fl unit r' es
 
 def caseCalls (fl : Flags) (u cs : String) : String :=
   match u.toNat?, ((cs.splitOn " ").filter (· ≠ "")).mapM parseCall with
@@ -191,5 +192,6 @@ def main (args : List String) : IO Unit := do
     { v := { voidFix := args.contains "void=repaired", retryFix := args.contains "retry=repaired",
              credFix := args.contains "cred=repaired" },
       esc := args.contains "promescape=repaired",
-      group := args.contains "promgroup=repaired" }
+      group := args.contains "promgroup=repaired",
+      lostFix := args.contains "lostcount=repaired" }
   loop fl (← IO.getStdin) (← IO.getStdout)
